@@ -97,32 +97,36 @@ impl<'a> IntersectionParams<'a> {
         // If we got here, line segments intersect. Compute intersection point using method similar
         // to that described here: http://paulbourke.net/geometry/pointlineplane/#i2l
 
-        // The denominator/2 is to get rounding instead of truncating.
-        let offset = denominator.abs() / 2;
-
         let origin_distances = Point::new(line1.origin_distance, line2.origin_distance);
 
-        let numerator =
+        let x_numerator =
             origin_distances.determinant(Point::new(line1.normal_vector.y, line2.normal_vector.y));
-        let x_numerator = if numerator < 0 {
-            numerator - offset
-        } else {
-            numerator + offset
-        };
 
-        let numerator =
+        let y_numerator =
             Point::new(line1.normal_vector.x, line2.normal_vector.x).determinant(origin_distances);
-        let y_numerator = if numerator < 0 {
-            numerator - offset
-        } else {
-            numerator + offset
-        };
 
         Intersection::Point {
-            point: Point::new(x_numerator, y_numerator) / denominator,
+            point: Point::new(
+                div_round(x_numerator, denominator),
+                div_round(y_numerator, denominator),
+            ),
             outer_side,
         }
     }
+}
+
+/// Divides two integers and rounds the result to the nearest integer.
+///
+/// Ties are always rounded towards positive infinity instead of away from zero. This makes the
+/// rounded intersection point independent of the position of the lines relative to the origin.
+fn div_round(numerator: i32, denominator: i32) -> i32 {
+    let (numerator, denominator) = if denominator < 0 {
+        (-i64::from(numerator), -i64::from(denominator))
+    } else {
+        (i64::from(numerator), i64::from(denominator))
+    };
+
+    (2 * numerator + denominator).div_euclid(2 * denominator) as i32
 }
 
 #[cfg(test)]
